@@ -409,7 +409,8 @@ def products(case, r):
         try:
             if what == "norm":
                 res = a.norm
-                want = np.sqrt(sum(x * x for x in ac))
+                import functools
+                want = functools.reduce(np.hypot, ac) if len(ac) > 1 else np.abs(ac[0])     # no under/overflow of squares
                 got, gu = _phys(res)
                 if not um.same_dims(gu, au):
                     r.bad(["norm", "unit"], f"norm unit {res.unit} for vector in {ua}")
@@ -418,6 +419,8 @@ def products(case, r):
                     r.bad(["norm", "not-in-vector-unit"], f"norm unit {res.unit} != {a.unit}")
                 ok = np.abs(got - want) <= rtol * np.abs(want) + 0.0
                 ok |= (np.isnan(got) & np.isnan(want)) | (got == want)
+                anynan = np.any(np.isnan(np.array(ac)), axis=0)
+                ok |= anynan & np.isnan(got)          # hypot(inf, nan) is inf, sqrt(inf**2 + nan**2) is nan: both fine
                 if case.get("wide"):
                     r.label("norm_wide_or_nonfinite")
                 if not np.all(ok):
